@@ -35,15 +35,20 @@ def gen_history(rng, idx, tier):
     ckeys = [0, 1, 2, BIG, BIG + 1, 2 * BIG + 1, 99]       # k, k + 2^20, k + 2*2^20 share a cache slot
     for e in range(1, h.epochs + 1):
         # map / multimap / set / multiset: at most 5 operations per key and epoch (all orders are enumerated)
-        for cont, codes in (('M', ['MI', 'MIM', 'MV', 'MVE', 'MIV', 'MRA', 'MRX', 'ME']), ('X', ['XI', 'XI', 'XV', 'XVG', 'XVE', 'XE']),
+        for cont, codes in (('M', ['MI', 'MIM', 'MV', 'MVE', 'MIV', 'MRA', 'MRX', 'MRN', 'MRN', 'ME']), ('X', ['XI', 'XI', 'XV', 'XVG', 'XVE', 'XE']),
                             ('S', ['SI', 'SE', 'SIM', 'SIM', 'SIC', 'SXM', 'SXC']), ('T', ['TI', 'TI', 'TE'])):
             for k in keys:
                 if rng.random() < 0.45:
                     continue
+                if cont == 'M' and rng.random() < 0.3:
+                    # a burst of non-commutative reduces: with three or more, swapped reducer arguments fit no order
+                    for v in rng.sample([1, 10, 100, 1000, 7], rng.choice([3, 4])):
+                        add(rng.randrange(n), e, 'MRN', k, v)
+                    continue
                 for _ in range(rng.choice([1, 2, 3, 4, 5])):
                     c = rng.choice(codes)
                     r = rng.randrange(n)
-                    if c in ('MI', 'MIM', 'MRA', 'MRX', 'XI'):
+                    if c in ('MI', 'MIM', 'MRA', 'MRX', 'MRN', 'XI'):
                         add(r, e, c, k, rng.randrange(1, 50))
                     elif c in ('MV', 'MVE', 'XV', 'XVE'):
                         add(r, e, c, k, rng.randrange(1, 9))
@@ -156,13 +161,13 @@ def parse(lines):
             Z[(int(hd[1]), hd[2])] = (hd[3] if len(hd) > 3 else '', tail.split())
     return D, T, Q, Z, nested
 
-CONT_OF = {'MI': 'M', 'MIM': 'M', 'MV': 'M', 'MVE': 'M', 'MIV': 'M', 'MRA': 'M', 'MRX': 'M', 'ME': 'M',
+CONT_OF = {'MI': 'M', 'MIM': 'M', 'MV': 'M', 'MVE': 'M', 'MIV': 'M', 'MRA': 'M', 'MRX': 'M', 'MRN': 'M', 'ME': 'M',
            'XI': 'X', 'XV': 'X', 'XVG': 'X', 'XVE': 'X', 'XE': 'X', 'SI': 'S', 'SE': 'S', 'SIM': 'S', 'SIC': 'S', 'SXM': 'S', 'SXC': 'S',
            'TI': 'T', 'TE': 'T', 'AS': 'A', 'AV': 'A', 'AP': 'A', 'AX': 'A', 'AM': 'A', 'AI': 'A'}
 
 def coq_op(o):
     oid, r, e, c, a = o
-    if c in ('MI', 'MIM', 'MRA', 'MRX', 'XI'):
+    if c in ('MI', 'MIM', 'MRA', 'MRX', 'MRN', 'XI'):
         return '%s (%d)' % (c, a[1])
     if c in ('MV', 'MVE', 'XV', 'XVE', 'AV'):
         return '%s %d (%d)' % (c, oid, a[1])
